@@ -1,5 +1,4 @@
-use super::swift_utils::parse_swift_chars;
-use crate::errors::ParseError;
+use super::field_utils::parse_multiline_text;
 use crate::traits::SwiftField;
 use serde::{Deserialize, Serialize};
 
@@ -30,28 +29,8 @@ impl SwiftField for Field86 {
     where
         Self: Sized,
     {
-        let mut lines = Vec::new();
-
-        // Parse up to 6 lines of 65 characters each
-        for line in input.lines().take(6) {
-            // Validate line length (max 65 characters)
-            if line.len() > 65 {
-                return Err(ParseError::InvalidFormat {
-                    message: format!("Field 86 line exceeds 65 characters: {}", line.len()),
-                });
-            }
-
-            // Validate SWIFT character set
-            parse_swift_chars(line, "Field 86 line")?;
-
-            lines.push(line.to_string());
-        }
-
-        if lines.is_empty() {
-            return Err(ParseError::InvalidFormat {
-                message: "Field 86 must contain at least one line".to_string(),
-            });
-        }
+        // 6*65x: every line is kept; more than 6 lines, a blank line or a line over 65 characters is an error
+        let lines = parse_multiline_text(input, 6, 65)?;
 
         Ok(Field86 { narrative: lines })
     }
